@@ -211,11 +211,24 @@ inductive Query where
   | sel (src : Query) (b : Block)
   deriving Repr, Inhabited
 
+def whereStep (w : Option SExpr) (rows : List Row) : Option (List Row) :=
+  match w with
+  | some p => filterOp p rows
+  | none => some rows
+
+def projStep (es : Option (List SExpr)) (rows : List Row) : Option (List Row) :=
+  match es with
+  | some es => mapOp es rows
+  | none => some rows
+
 /-- FROM → WHERE → SELECT list → DISTINCT, as `ParseSelect` stacks the logical nodes -/
-def blockCore (b : Block) (rows : List Row) : Option (List Row) := do
-  let r1 ← match b.whr with | some p => filterOp p rows | none => some rows
-  let r2 ← match b.proj with | some es => mapOp es r1 | none => some r1
-  pure (if b.distinct then distinctOp r2 else r2)
+def blockCore (b : Block) (rows : List Row) : Option (List Row) :=
+  match whereStep b.whr rows with
+  | none => none
+  | some r1 =>
+    match projStep b.proj r1 with
+    | none => none
+    | some r2 => some (if b.distinct then distinctOp r2 else r2)
 
 /-- ORDER BY / LIMIT of a nested block or of an eager top-level sink (`physical/nodes.go`,
     csv/json/stream_native arm of `cmd/root.go`), `NoRetractions = true`:
@@ -228,15 +241,25 @@ def orderLimitEager (b : Block) (rows : List Row) : Option (List Row) :=
 
 def denoteNested : Query → List Row → Option (List Row)
   | .table, t => some t
-  | .sel src b, t => do
-    let r ← denoteNested src t
-    let c ← blockCore b r
-    orderLimitEager b c
+  | .sel src b, t =>
+    match denoteNested src t with
+    | none => none
+    | some r =>
+      match blockCore b r with
+      | none => none
+      | some c => orderLimitEager b c
 
 inductive Mode where
   | eager      -- csv, json, stream_native
   | table      -- batch_table, live_table
   deriving Repr, DecidableEq, Inhabited
+
+/-- table sinks: a Limit node in front iff (LIMIT ∧ no ORDER BY ∧ NoRetractions); then the printer sorts and limits -/
+def tableSink (b : Block) (c : List Row) : Option (List Row) :=
+  printerOp b.order b.limit
+    (match b.limit with
+     | some n => if b.order = [] then (if n = 0 then [] else limitOp n c) else c
+     | none => c)
 
 /-- the whole engine on a query, by output mode -/
 def denote (mode : Mode) : Query → List Row → Option (List Row)
@@ -244,16 +267,15 @@ def denote (mode : Mode) : Query → List Row → Option (List Row)
     match mode with
     | .eager => some t
     | .table => printerOp [] none t
-  | .sel src b, t => do
-    let r ← denoteNested src t
-    let c ← blockCore b r
-    match mode with
-    | .eager => orderLimitEager b c
-    | .table =>
-      -- a Limit node in front iff (LIMIT ∧ no ORDER BY ∧ NoRetractions); then the printer sorts and limits
-      let c' := match b.limit with
-        | some n => if b.order = [] then (if n = 0 then [] else limitOp n c) else c
-        | none => c
-      printerOp b.order b.limit c'
+  | .sel src b, t =>
+    match denoteNested src t with
+    | none => none
+    | some r =>
+      match blockCore b r with
+      | none => none
+      | some c =>
+        match mode with
+        | .eager => orderLimitEager b c
+        | .table => tableSink b c
 
 end Octo.Sql
